@@ -38,7 +38,9 @@ type Solver struct {
 	vars      *[]*Term
 	fbTimeout int // seconds; 0 = no fall-back
 	fbModel   map[string]uint64
-	fbStats   struct{ Calls, ByCvc5Int, ByZ3 int }
+	fbStats   struct{ Calls, ByCvc5Int, ByZ3, BadModels int }
+	asserted  []*Term // terms asserted on the current path
+	evalVer   uint32
 	tmpDir    string
 	recycled  int
 	revived   int
@@ -169,6 +171,7 @@ func (s *Solver) BeginPath() uint32 {
 	s.session++
 	s.raw("(push 1)\n")
 	s.pathText.Reset()
+	s.asserted = s.asserted[:0]
 	return s.session
 }
 
@@ -194,7 +197,29 @@ func (s *Solver) emitPerm(t *Term) {
 	}
 }
 
+// modelSatisfies evaluates every assertion of the path and the extra terms
+// under the values m with the engine's own evaluator.
+func (s *Solver) modelSatisfies(m map[string]uint64, extra []*Term) bool {
+	if s.evalVer < 1<<30 {
+		s.evalVer = 1 << 30
+	}
+	s.evalVer++
+	mod := &Model{ver: s.evalVer, vals: m}
+	for _, t := range s.asserted {
+		if t.Eval(mod) == 0 {
+			return false
+		}
+	}
+	for _, t := range extra {
+		if t.Eval(mod) == 0 {
+			return false
+		}
+	}
+	return true
+}
+
 func (s *Solver) Assert(t *Term) {
+	s.asserted = append(s.asserted, t)
 	s.emitPerm(t)
 	s.perm("(assert " + t.ref() + ")\n")
 }
@@ -542,6 +567,19 @@ func (s *Solver) fallback(extra []*Term) string {
 				m := map[string]uint64{}
 				if j := strings.Index(a.out, "("); j >= 0 {
 					parseValues(a.out[j:], m)
+				}
+				if !s.modelSatisfies(m, extra) {
+					// a back end answered sat with values that do not satisfy the
+					// path condition under the engine's own evaluator: not trusted
+					s.fbStats.BadModels++
+					fmt.Fprintf(os.Stderr, "solver: fall-back model of %s rejected by evaluation\n", a.who)
+					res = "unknown"
+					if a.who == "cvc5int" {
+						s.fbStats.ByCvc5Int--
+					} else {
+						s.fbStats.ByZ3--
+					}
+					continue
 				}
 				s.fbModel = m
 			}
